@@ -1,7 +1,10 @@
 """Checks for the rule-family properties C01, C02, C06, C07 (shared differential run)."""
+import json
 import random
+import re
 
 from . import core, gen, rules_run
+from mathy_core import rules as R
 
 
 def is_eq(t):
@@ -102,12 +105,49 @@ def family_run(ctx, want_equations=None):
     return recs, d
 
 
+_HUGE = re.compile(r"\d{20,}")
+
+
+def is_known_df_huge(problem):
+    """predicate of the open finding C06-factor-out-huge-integer (see known_findings.json)"""
+    blob = json.dumps(problem, default=str)
+    if "TypeError" not in blob or not re.search(r"\bdf[01]?\b|DistributiveFactorOut", blob):
+        return False
+    return any(int(m) >= 2 ** 64 for m in _HUGE.findall(blob))
+
+
+def split_known(ctx, problems):
+    """(problems not covered by an open finding, number covered)"""
+    if not any(f.get("id", "").endswith("factor-out-huge-integer") for f in ctx.findings.get("open", [])):
+        return problems, 0
+    rest = [p for p in problems if not is_known_df_huge(p)]
+    return rest, len(problems) - len(rest)
+
+
+def probe_known_df_huge(ctx):
+    """re-execute the witness of the open finding; print KNOWN-FINDING while it reproduces"""
+    f = [f for f in ctx.open_findings() if f.get("id", "").endswith("factor-out-huge-integer")]
+    if not f:
+        return
+    try:
+        R.DistributiveFactorOutRule().find_nodes(core.parse_fresh("36893488147419103232x + 2x"))
+    except TypeError:
+        ctx.known_finding(f"{f[0]['id']}: {f[0]['what'][:260]} (reproduced on '36893488147419103232x + 2x')")
+    except Exception as e:  # noqa
+        ctx.violation("apply_fail", {"text": "36893488147419103232x + 2x", "rule": "df0",
+                                     "what": f"find_nodes raised {type(e).__name__}: {e}"[:300]})
+
+
 def report(ctx, d, violation_kinds, correspondence_kinds, what):
     """violation_kinds: oracle failures on the real code (failing input found).
     correspondence_kinds: model/implementation differences; when there is no oracle failure
     they are reported as 'no-failing-input-found'."""
     found = False
     for k in violation_kinds:
+        d[k], nk = split_known(ctx, d[k])
+        if nk:
+            ctx.notes.setdefault("covered_by_open_finding", 0)
+            ctx.notes["covered_by_open_finding"] += nk
         for case in d[k][:5]:
             ctx.violation(k, dict(describe(case), observation=k, what=what))
             found = True
@@ -148,20 +188,80 @@ def inplace_walk_case(args):
     except Exception:
         return None
     eq = is_eq(start_tuple)
+    watched = []      # (rule name, node object): asked directly, again and again, around the edits
+    sweep = seed % 3 != 0   # one walk in three never sweeps the tree with find_nodes: it asks single nodes only
     for step in range(length):
         options = []
-        for rn in core.RULE_NAMES:
+        if sweep:
+            for rn in core.RULE_NAMES:
+                try:
+                    for n in core.rule_instance(rn).find_nodes(current):
+                        options.append((rn, n.r_index))
+                except Exception as e:  # noqa
+                    out["problems"].append({"prop": "C06", "step": step, "what": f"find_nodes({rn}) raised {type(e).__name__}",
+                                            "rule": rn, "state": str(current)})
+        else:
+            # applicable (rule, node) pairs according to FRESH rule objects (no history)
+            live0 = core.inorder(current)
+            for rn in core.RULE_NAMES:
+                fr = core.RULES[rn]()
+                for i_, n_ in enumerate(live0):
+                    try:
+                        if fr.can_apply_to(n_):
+                            options.append((rn, i_))
+                    except Exception:  # noqa
+                        pass
+        # the same question asked of the same node object before and after in-place edits made
+        # elsewhere must be answered as a rule object without history answers it (C06: same tree,
+        # same answer), and a form that became / stopped being a documented form must be
+        # accepted / rejected accordingly (C08)
+        live = core.inorder(current)
+        live_ids = {id(n) for n in live}
+        watched = [(wr, wn) for wr, wn in watched if id(wn) in live_ids][-4:]
+        forced = None
+        for wr, wn in watched:
             try:
-                for n in core.rule_instance(rn).find_nodes(current):
-                    options.append((rn, n.r_index))
+                a_long = bool(core.rule_instance(wr).can_apply_to(wn))
+                a_fresh = bool(core.RULES[wr]().can_apply_to(wn))
             except Exception as e:  # noqa
-                out["problems"].append({"prop": "C06", "step": step, "what": f"find_nodes({rn}) raised {type(e).__name__}"})
-        if not options:
+                out["problems"].append({"prop": "C06", "step": step, "rule": wr, "state": str(current),
+                                        "what": f"can_apply_to raised {type(e).__name__}"})
+                continue
+            if a_long != a_fresh:
+                for pr_ in ("C06", "C08"):
+                    out["problems"].append({"prop": pr_, "step": step, "rule": wr, "node": str(wn), "state": str(current),
+                                            "what": f"can_apply_to answers {a_long} on a long-lived rule object but {a_fresh} on a "
+                                                    "fresh one for the same node of the same tree (the node was asked about "
+                                                    "before an in-place edit elsewhere)"})
+            elif a_long and forced is None and rng.random() < 0.5:
+                forced = (wr, wn)
+        if live and rng.random() < 0.7:
+            wn = rng.choice(live)
+            wr = rng.choice(core.RULE_NAMES)
+            try:
+                core.rule_instance(wr).can_apply_to(wn)   # the first question (its answer is checked by the sweep above)
+                watched.append((wr, wn))
+            except Exception:  # noqa
+                pass
+        if forced is not None:
+            # apply at the watched node WITHOUT asking anything else in between
+            rn = forced[0]
+            idx = next(i for i, n in enumerate(live) if n is forced[1])
+        elif options:
+            rn, idx = rng.choice(options)
+        else:
             break
-        rn, idx = rng.choice(options)
         rule = core.rule_instance(rn)
         nodes = core.inorder(current)
         node = nodes[idx]
+        expected = None
+        if forced is not None:
+            # what a rule object without history produces on an identical copy
+            try:
+                cp = node.clone_from_root()
+                expected = core.strip_tags(core.to_tuple(core.RULES[rn]().apply_to(cp).result.get_root()))
+            except Exception:  # noqa
+                expected = None
         tags = core.tag_map(current)
         try:
             before = core.to_tuple(current, tags)
@@ -196,6 +296,12 @@ def inplace_walk_case(args):
             break
         rec["after"] = after
         out["steps"].append(rec)
+        if expected is not None and not core.tuples_agree(core.strip_tags(after), expected, with_tags=False):
+            for pr_ in ("C06", "C08"):
+                out["problems"].append({"prop": pr_, "step": step, "rule": rn, "idx": idx, "state": core.tuple_str(before),
+                                        "result": core.tuple_str(after), "fresh_rule_result": core.tuple_str(expected),
+                                        "what": "a long-lived rule object rewrites this node differently from a fresh rule "
+                                                "object (same tree, same node)"})
         if core.tuple_vars(after) != core.tuple_vars(before):
             out["problems"].append({"prop": "C07", "step": step, "rule": rn, "idx": idx, "what": "variable set changed",
                                     "state": core.tuple_str(before), "result": core.tuple_str(after)})
@@ -257,6 +363,7 @@ def inplace_family(ctx, prop):
     ctx.coverage["traces_validated_against_impl"] += nsteps
     out = []
     for w in walks:
+        w["problems"], _nk = split_known(ctx, w["problems"])
         for p in w["problems"]:
             if p["prop"] == prop:
                 out.append(dict(p, start=w["start"], in_place=True,
@@ -304,6 +411,7 @@ def c06(ctx):
     recs, d = family_run(ctx, want_equations=None)
     report(ctx, d, ["apply_fail", "purity", "find_meta", "second_step"], ["find"], "applicable => appliable; purity; node search")
     report_inplace(ctx, "C06", "applicable => appliable on trees rewritten in place")
+    probe_known_df_huge(ctx)
 
 
 def c07(ctx):
@@ -339,17 +447,31 @@ def walk_case(args):
     except core.Unmodelled:
         return None
     history = [(current, core.snapshot(current))]
+    moves = {}        # state index -> the moves listed when the state was expanded
+    backtrack = seed % 2 == 0
     for step in range(length):
-        options = []
-        for rn in core.RULE_NAMES:
-            rule = core.rule_instance(rn)
-            try:
-                for n in rule.find_nodes(current):
-                    options.append((rn, n.r_index))
-            except Exception as e:  # noqa
-                out["problems"].append({"step": step, "what": f"find_nodes({rn}) raised {type(e).__name__}"})
+        # a search agent lists the moves of a state when it expands it and may take one of them
+        # LATER, after having expanded other states with the same long-lived rule objects
+        k_state = len(history) - 1
+        if backtrack and len(history) > 1 and rng.random() < 0.4:
+            k_state = rng.randrange(len(history))
+        current = history[k_state][0]
+        if k_state not in moves:
+            options = []
+            for rn in core.RULE_NAMES:
+                rule = core.rule_instance(rn)
+                try:
+                    for n in rule.find_nodes(current):
+                        options.append((rn, n.r_index))
+                except Exception as e:  # noqa
+                    out["problems"].append({"step": step, "what": f"find_nodes({rn}) raised {type(e).__name__}", "rule": rn,
+                                        "state": str(current)})
+            moves[k_state] = options
+        options = moves[k_state]
         if not options:
-            break
+            if k_state == len(history) - 1:
+                break
+            continue
         rn, idx = rng.choice(options)
         rule = core.rule_instance(rn)
         node = core.inorder(current)[idx]
@@ -468,6 +590,7 @@ def c09(ctx):
                           "before": core.tuple_str(st["before"]), "impl": core.tuple_to_wire(st["after"]),
                           "model": core.tuple_to_wire(m)})
     for w in walks:
+        w["problems"], _nk = split_known(ctx, w["problems"])
         for p in w["problems"]:
             bad.append({"start": w["start"], "sequence": [(s["rule"], s["idx"]) for s in w["steps"]], **p})
     # in-place sequences (the same node objects rewritten again and again, long-lived rule objects):
@@ -501,6 +624,7 @@ def c09(ctx):
         ctx.sample({"start": w["start"], "sequence": [(s["rule"], s["idx"]) for s in w["steps"]],
                     "end": w["steps"][-1].get("text") if w["steps"] else None})
     from .props_parse import finish
+    probe_known_df_huge(ctx)
     finish(ctx, [("sequence", bad)], [("step", diffs)], "any sequence of rewrites stays equivalent to the start")
 
 
